@@ -370,66 +370,123 @@ def fold2(e, env, selfcall):
 
 
 class Mat2:
-    """Interpreter of the single-symbol branch of a 2x2 op_mat."""
+    """value of op_mat(symbol) of a two-level basis class by an abstract run of the method on exact 2 x 2 matrices (sympy): recursion through self.op_mat, products,
+    class-level alias tables, helper methods and early returns are followed.  Raises Opaque when the symbol is not supported / not foldable."""
 
-    def __init__(self, fi, split):
-        self.fi, self.split = fi, split
-        self.depth = 0
+    SRC = None     # set by run(): the source model
 
-    def value(self, symbol):
-        self.depth += 1
-        if self.depth > 6:
-            raise AnalysisError("2x2 recursion")
+    def __init__(self, fi, split=None, src=None):
+        self.fi = fi
+        self.src = src or Mat2.SRC
+
+    def value(self, symbol, dofs=None, attrs=None):
+        from ..syminterp import SymInterp, Sym, SymRaise, Blob, OpenSym
+        from .chain_rules import class_resolver
+        import functools
+
+        class M(Sym):
+            """exact matrix"""
+            def __init__(self, m):
+                super().__init__("matrix")
+                self.m = sp.Matrix(m)
+
+            @property
+            def T(self):
+                return M(self.m.T)
+
+            @property
+            def real(self):
+                if any(sp.im(x) != 0 for x in self.m):
+                    raise AnalysisError(".real drops a non-zero imaginary part")
+                return M(self.m.applyfunc(sp.re))
+
+            @property
+            def shape(self):
+                return self.m.shape
+
+            def conj(self):
+                return M(self.m.conjugate())
+
+            conjugate = conj
+
+            def copy(self):
+                return M(self.m)
+
+            def dot(self, o):
+                return M(self.m * o.m)
+
+            def __matmul__(self, o):
+                return M(self.m * o.m)
+
+            def __mul__(self, o):
+                return M(self.m.multiply_elementwise(o.m)) if isinstance(o, M) else M(self.m * sp.nsimplify(o))
+
+            __rmul__ = __mul__
+
+            def __add__(self, o):
+                return M(self.m + o.m)
+
+            def __sub__(self, o):
+                return M(self.m - o.m)
+
+            def __neg__(self):
+                return M(-self.m)
+
+            def __truediv__(self, o):
+                return M(self.m / sp.nsimplify(o))
+
+            def __getitem__(self, k):
+                return self.m[k]
+
+            def __setitem__(self, k, v):
+                self.m[k] = sp.nsimplify(v)
+
+        def num(x):
+            return sp.nsimplify(x) if not isinstance(x, sp.Basic) else x
+
+        def diag(v, k=0):
+            v = [num(x) for x in v]
+            n = len(v) + abs(int(k))
+            m = sp.zeros(n, n)
+            for q, x in enumerate(v):
+                m[(q, q + k) if k >= 0 else (q - k, q)] = x
+            return M(m)
+
+        def array(x, dtype=None, **kw):
+            return x if isinstance(x, M) else M([[num(v) for v in r] for r in x])
+        npx = OpenSym("np", make=lambda t: Blob(t), eye=lambda n, **k: M(sp.eye(int(n))), diag=diag, array=array, asarray=array, zeros=lambda shape, **k: M(sp.zeros(*[int(d) for d in (shape if isinstance(shape, (list, tuple)) else (shape, shape))])),
+                      conj=lambda x: x.conj(), real=lambda x: x.real, kron=lambda a, b: M(sp.kronecker_product(a.m, b.m)))
+        cname = self.fi.qual.split(".")[0]
+
+        class OpS(Sym):
+            def __init__(self, symbol, dofs=None, factor=1, qn=None):
+                super().__init__(f"Op({symbol})")
+                self.symbol, self.factor, self.dofs = symbol, 1, dofs
+                self.split_symbol = symbol.split(" ")
+        me = Sym("basis", nbas=2, dof="dof", dofs=["dof"], sigmaqn=[0, 1], multi_dof=False)
+        me._cls = cname
+        resolve = class_resolver(self.src, {cname: self.fi.rel})
+        # class-level constants (alias tables) are attributes of the stand-in
+        for ci in self.src.mro(self.src.cls(self.fi.rel, cname)):
+            for st in ci.node.body:
+                if isinstance(st, ast.Assign) and len(st.targets) == 1 and isinstance(st.targets[0], ast.Name):
+                    try:
+                        me.__dict__.setdefault(st.targets[0].id, ast.literal_eval(st.value))
+                    except (ValueError, SyntaxError, TypeError):
+                        pass
+        it = SymInterp(self.src, resolve, {"np": npx, "xp": npx, "Op": lambda symbol, dofs=None, factor=1, qn=None: OpS(symbol, dofs), "isinstance": lambda x, t: isinstance(x, OpS) if t is not None and not isinstance(t, type) else (isinstance(x, t) if isinstance(t, type) else False),
+                                          "functools": Sym("functools", reduce=functools.reduce), "reduce": functools.reduce, "logger": Blob("logger"), "ValueError": lambda *a: Exception("ValueError")})
+        it.max_depth = 14
+        me.__dict__.update(attrs or {})
         try:
-            return self._run(symbol)
-        finally:
-            self.depth -= 1
-
-    def _run(self, symbol):
-        names = {"op_symbol": [symbol] if self.split else symbol}
-        se = StrEval(names, {})
-        env = {}
-        res = [None]
-
-        def block(stmts):
-            for s in stmts:
-                if res[0] is not None:
-                    return
-                if isinstance(s, ast.If):
-                    if "isinstance(op, Op)" in unparse(s.test):
-                        continue
-                    block(s.body if se.ev(s.test) else s.orelse)
-                elif isinstance(s, ast.Assign) and len(s.targets) == 1:
-                    tg = s.targets[0]
-                    if isinstance(tg, ast.Tuple):
-                        continue
-                    if isinstance(tg, ast.Name) and tg.id == "op_symbol":
-                        names["op_symbol"] = se.ev(s.value)
-                    elif isinstance(tg, ast.Name):
-                        env[tg.id] = fold2(s.value, env, self.value)
-                    elif isinstance(tg, ast.Subscript) and isinstance(tg.value, ast.Name) and tg.value.id in env:
-                        idx = fold2(tg.slice, env, self.value)
-                        m = env[tg.value.id].copy()
-                        m[int(idx[0]), int(idx[1])] = fold2(s.value, env, self.value)
-                        env[tg.value.id] = m
-                    else:
-                        raise AnalysisError(f"2x2 statement: {unparse(s)}")
-                elif isinstance(s, ast.Return):
-                    t = unparse(s.value).replace(" ", "")
-                    res[0] = env.get("mat") if t == "mat*op_factor" else fold2(s.value, env, self.value)
-                elif isinstance(s, ast.Raise):
-                    raise Opaque("unsupported")
-                elif isinstance(s, ast.For):
-                    raise Opaque("loop")
-                elif isinstance(s, (ast.Expr, ast.Pass, ast.Assert)):
-                    continue
-                else:
-                    raise AnalysisError(f"2x2 statement: {unparse(s)[:50]}")
-
-        block(self.fi.node.body)
-        if res[0] is None:
-            raise Opaque("no value")
-        return res[0]
+            res = it.call_function(self.fi, [me, symbol if dofs is None else OpS(symbol, dofs)])
+        except SymRaise as e:
+            raise Opaque(f"unsupported: {e}")
+        except KeyError as e:
+            raise Opaque(f"KeyError: {e}")
+        if not isinstance(res, M):
+            raise Opaque(f"op_mat({symbol!r}) gives {res!r}")
+        return res.m
 
 
 # ------------------------------------------------------------------ copy forward
@@ -676,6 +733,7 @@ def counter_balance_rule(chk, src):
 
 def run(chk):
     src = chk.src
+    Mat2.SRC = src
     chk.explanation = (
         "Decides structural/algebraic clauses of C16 on the source of model/basis.py: (1) every product / power branch of "
         "BasisSHO.op_mat, translated to a polynomial in the ladder generators b, b+ over Q(sqrt(omega), x0, i) and normal "
@@ -896,38 +954,29 @@ def run(chk):
         chk.ob("pauli", f"BasisSimpleElectron: {name}", sp.simplify(a - c) == sp.zeros(2, 2), se_.where, str(a.tolist()), str(c.tolist()),
                line=se_.node.lineno, detail=f"electron matrices violate {name}")
 
-    # ------------------------------------------------------------ multi electron element placement
-    for cname in ("BasisMultiElectron", "BasisMultiElectronVac"):
+    # ------------------------------------------------------------ multi electron element placement: abstract run of op_mat on three degrees of freedom
+    for cname, off in (("BasisMultiElectron", 0), ("BasisMultiElectronVac", 1)):
         fi = src.func(BASIS, f"{cname}.op_mat")
-        two = [n for n in fi.node.body if isinstance(n, ast.If)]
-        branch = None
-        for n in ast.walk(fi.node):
-            if isinstance(n, ast.If) and unparse(n.test).replace(" ", "") == "len(op_symbol)==2":
-                branch = n.body
-        if branch is None:
-            raise AnalysisError(f"{cname}.op_mat: two-symbol branch not found")
-        for s1, s2, want in ((r"a^\dagger", "a", ["op_symbol1_idx", "op_symbol2_idx"]), ("a", r"a^\dagger", ["op_symbol2_idx", "op_symbol1_idx"])):
-            se = StrEval({"op_symbol1": s1, "op_symbol2": s2}, {})
-            placed = []
-
-            def walk(stmts):
-                for st in stmts:
-                    if isinstance(st, ast.If):
-                        try:
-                            c = se.ev(st.test)
-                        except AnalysisError:
-                            raise AnalysisError(f"{cname}.op_mat: condition {unparse(st.test)[:60]} not evaluable for symbols ({s1}, {s2})")
-                        walk(st.body if c else st.orelse)
-                    elif isinstance(st, ast.Assign) and isinstance(st.targets[0], ast.Subscript) and unparse(st.targets[0].value) == "mat":
-                        idx = [unparse(x).replace("int(", "").replace(")", "") for x in st.targets[0].slice.elts]
-                        placed.append((idx, unparse(st.value)))
-                    elif isinstance(st, ast.Raise):
-                        placed.append(("raise", ""))
-            walk(branch)
-            ok = len(placed) == 1 and placed[0][0] == want and placed[0][1] in ("1.0", "1", "1.")
-            chk.ob("multi-electron", f"{cname}: ({s1}, {s2})", ok, fi.where, placed, [want, "1.0"], line=fi.node.lineno,
-                   detail=f"{cname}.op_mat: for the symbol pair ({s1} on DoF i, {s2} on DoF j) the single 1 must sit at [index of the a^dagger DoF, index of the a DoF]; "
-                          f"a_i a_j^dagger is the Hermitian conjugate of a_i^dagger a_j, not the same matrix")
+        mm = Mat2(fi, src=src)
+        dof_names = ["d0", "d1", "d2"]
+        attrs = {"nbas": 3 + off, "dof_name_map": {d: q + off for q, d in enumerate(dof_names)}, "dof": dof_names, "dofs": dof_names}
+        for s1, s2 in ((r"a^\dagger", "a"), ("a", r"a^\dagger")):
+            probs = []
+            for (qa, da) in enumerate(dof_names):
+                for (qb, db) in enumerate(dof_names):
+                    try:
+                        m = mm.value(f"{s1} {s2}", dofs=[da, db], attrs=attrs)
+                    except Opaque as e:
+                        probs.append(f"({da}, {db}): {e}")
+                        continue
+                    row, col = (qa, qb) if s1 != "a" else (qb, qa)      # row = the a^dagger DoF, column = the a DoF
+                    want = sp.zeros(3 + off, 3 + off)
+                    want[row + off, col + off] = 1
+                    if m != want:
+                        probs.append(f"({s1} on {da}, {s2} on {db}): non-zero elements {[(r_, c_, m[r_, c_]) for r_ in range(m.shape[0]) for c_ in range(m.shape[1]) if m[r_, c_] != 0]}, expected a single 1 at [{row + off}, {col + off}]")
+            chk.ob("multi-electron", f"{cname}: ({s1}, {s2})", not probs, fi.where, probs[:2] or "single 1 at [index of the a^dagger DoF, index of the a DoF] for all 9 pairs", "single 1 at [index of the a^dagger DoF, index of the a DoF]",
+                   line=fi.node.lineno, detail=f"{cname}.op_mat: for the symbol pair ({s1} on DoF i, {s2} on DoF j) the single 1 must sit at [index of the a^dagger DoF, index of the a DoF]; "
+                                               f"a_i a_j^dagger is the Hermitian conjugate of a_i^dagger a_j, not the same matrix")
     holstein_rule(chk, src)
     # ------------------------------------------------------------ copy forward
     base = src.cls(BASIS, "BasisSet")
@@ -1013,43 +1062,57 @@ def holstein_rule(chk, src):
     fi = src.func(MODEL, "HolsteinModel.__init__")
     env = {"ph.omega[0]": "W0", "ph.omega[1]": "W1", "ph.dis[1]": "D1", "ph.dis[0]": "D0"}
     w0, w1, d1 = sp.Symbol("w0", positive=True), sp.Symbol("w1", positive=True), sp.Symbol("d1", real=True)
-    loops = [n for n in fi.node.body if isinstance(n, ast.For) and any(isinstance(x, ast.For) and "ph_list" in unparse(x.iter) for x in n.body)]
-    if len(loops) < 2:
-        raise AnalysisError(f"{fi.where}: vibration loops not found")
+    # the term list: abstract run of HolsteinModel.__init__ on one molecule with one vibration whose frequencies and displacement are symbols
+    from ..syminterp import SymInterp, Sym, Blob
+    from .chain_rules import class_resolver
 
-    def collect(stmts, equal):
+    class OpT(Sym):
+        """operator term: symbol string, degrees of freedom, coefficient"""
+        def __init__(self, symbol, dofs=None, factor=1, qn=None):
+            super().__init__(f"{factor}*{symbol}")
+            self.symbol, self.dofs, self.factor = symbol, dofs, sp.sympify(factor)
+
+        def __mul__(self, o):
+            if isinstance(o, OpT):
+                return OpT(self.symbol + " " + o.symbol, (self.dofs, o.dofs), self.factor * o.factor)
+            return OpT(self.symbol, self.dofs, self.factor * sp.sympify(o))
+
+        __rmul__ = __mul__
+
+    def terms_of(equal):
+        wa, wb = (w0, w0) if equal else (w0, w1)
+        ph = Sym("ph", omega=[wa, wb], dis=[sp.Integer(0), d1], n_phys_dim=4)
+        mol = Sym("mol", ph_list=[ph], elocalex=sp.Symbol("elocalex"), e0=sp.Symbol("e0"), dipole="dipole")
+        got = {}
+
+        class J(Sym):
+            shape = (1, 1)
+
+            def __getitem__(self, k):
+                return sp.Symbol("J")
+        me = Sym("model")
+        me._cls = "HolsteinModel"
+        me.__dict__["n_edofs"] = 1
+
+        def model_init(basis, ham, dipole=None, **k):
+            got["ham"], got["basis"] = list(ham), list(basis)
+        me.__dict__["super___init__"] = model_init
+        it = SymInterp(src, class_resolver(src, {"HolsteinModel": MODEL}), {
+            "Op": lambda symbol, dofs=None, factor=1, qn=None: OpT(symbol, dofs, factor), "np": Sym("np", allclose=lambda a, b, **k: sp.simplify(sp.sympify(a) - sp.sympify(b)) == 0),
+            "isinstance": lambda x, t: False, "Quantity": "Quantity", "construct_j_matrix": lambda *a: J("j"), "BasisSimpleElectron": lambda *a, **k: ("e",) + a,
+            "BasisSHO": lambda *a, **k: ("sho",) + a, "BasisMultiElectronVac": lambda *a, **k: ("multi",) + a, "logger": Blob("logger")})
+        it.max_depth = 10
+        it.call_function(fi, [me, [mol], J("j")], {"scheme": 2})
         out = {}
-        for s in stmts:
-            if isinstance(s, ast.For):
-                for k, v in collect(s.body, equal).items():
-                    out[k] = out.get(k, 0) + v
-            elif isinstance(s, ast.If):
-                t = unparse(s.test).replace(" ", "")
-                if t == "np.allclose(ph.omega[0],ph.omega[1])":
-                    br = s.body if equal else s.orelse
-                elif t == "notnp.allclose(ph.omega[0],ph.omega[1])":
-                    br = s.orelse if equal else s.body
-                else:
-                    raise AnalysisError(f"{fi.where}: unexpected condition in the vibration loops: {t}")
-                for k, v in collect(br, equal).items():
-                    out[k] = out.get(k, 0) + v
-            elif isinstance(s, ast.Expr) and isinstance(s.value, ast.Call) and unparse(s.value.func) in ("ham.append", "ham.extend"):
-                arg = s.value.args[0]
-                items = arg.elts if isinstance(arg, ast.List) else [arg]
-                for it in items:
-                    sym, c = op_term(it, env)
-                    out[sym] = out.get(sym, 0) + c
+        for t_ in got.get("ham", []):
+            if not isinstance(t_, OpT):
+                raise AnalysisError(f"{fi.where}: the Hamiltonian list holds {t_!r}")
+            out[t_.symbol] = sp.simplify(out.get(t_.symbol, 0) + t_.factor)
         return out
     res = {}
     for equal in (False, True):
-        terms = {}
-        for lp in loops:
-            if any("basis.append" in unparse(x) for x in ast.walk(lp)):
-                continue
-            for k, v in collect(lp.body, equal).items():
-                terms[k] = terms.get(k, 0) + v
-        if equal:
-            terms = {k: sp.simplify(sp.sympify(v).subs(w1, w0)) for k, v in terms.items()}
+        terms = terms_of(equal)
+        terms.pop(r"a^\dagger a", None)        # the electronic block is the subject of the on-site obligation below
         res[equal] = terms
     gen = res[False]
     k2 = gen.get(r"a^\dagger a x^2", 0)
